@@ -164,6 +164,7 @@ End Hints.
 (* what the local zones are to the resolver: every lookup ends in a zone without SOA and finds
    nothing, or exactly the hints that match *)
 Definition hints_zones (zs : zones) (hints : list rr) : Prop :=
+  no_authoritative_zone zs /\                     (* so cut_at_local_authority never cuts: cut_no_auth *)
   forall name qt, wf_name name -> qt <> QT_Wildcard ->
     exists hz zr, zones_resolve zs name qt = Some (hz, Ok zr) /\ zone_soa_rr hz = None /\
       ((zr = ZNameError /\ forall x, ~ hint_match hints name qt x) \/
@@ -187,10 +188,14 @@ Lemma hints_zones_built hints hz :
   Forall hint_ok hints -> zone_build root_domain None (hint_ops hints) = Ok hz ->
   hints_zones (zones_insert [] hz) hints.
 Proof.
-  intros Hh Hb name qt Hname Hqt.
+  intros Hh Hb.
   destruct (zone_build_R root_domain None (hint_ops hints) root_wf (Forall_op_names _ (hint_ops_ok _ Hh)))
     as (z & Hb' & Ha & Hs & _).
   rewrite Hb in Hb'. inversion Hb'; subst z. clear Hb'.
+  split.
+  { apply no_auth_of_all. unfold zones_insert, ainsert. cbn [alookup app]. intros n z [E|[]]. inversion E; subst.
+    unfold zone_is_authoritative. rewrite Hs. reflexivity. }
+  intros name qt Hname Hqt.
   destruct (hints_zone_resolve hints Hh hz name qt Hb Hname Hqt) as (zr & Hzr & Hcases).
   exists hz, zr. split; [|split; [|exact Hcases]].
   - unfold zones_resolve, zones_insert, ainsert. cbn [alookup app]. rewrite Ha. unfold zones_get.
@@ -225,7 +230,7 @@ Section LocalHints.
     resolve_local zs cget (S f) stack q = Err (EDeadEnd q).
   Proof.
     intros H1 H2 Hn Hq Hno Hc1 Hc2. rewrite resolve_local_eq, H1, H2. unfold local_step, zone_phase.
-    destruct (Hz (q_name q) (q_type q) Hn Hq) as (hz & zr & -> & -> & [[-> _]|(rrs & -> & Hin)]).
+    destruct (proj2 Hz (q_name q) (q_type q) Hn Hq) as (hz & zr & -> & -> & [[-> _]|(rrs & -> & Hin)]).
     - unfold cache_phase, cache_part. rewrite Hc1, Hc2. cbn [is_nil andb]. destruct (negb (q_type q =? RT_CNAME)); reflexivity.
     - assert (rrs = []) as ->.
       { destruct rrs as [|x l]; [reflexivity|]. exfalso. apply (Hno x), Hin. left. reflexivity. }
@@ -242,7 +247,7 @@ Section LocalHints.
                 /\ rrs <> [] /\ forall x, In x rrs <-> hint_match hints (q_name q) (q_type q) x.
   Proof.
     intros H1 H2 Hn Hq Hm. rewrite resolve_local_eq, H1, H2. unfold local_step, zone_phase.
-    destruct (Hz (q_name q) (q_type q) Hn Hq) as (hz & zr & -> & -> & [[_ Hno]|(rrs & -> & Hin)]).
+    destruct (proj2 Hz (q_name q) (q_type q) Hn Hq) as (hz & zr & -> & -> & [[_ Hno]|(rrs & -> & Hin)]).
     - destruct (Hno x0 Hm).
     - assert (Hne : rrs <> []).
       { intros ->. apply (Hin x0) in Hm. destruct Hm. }
@@ -263,7 +268,7 @@ Section LocalHints.
                   = Ok (LDone (NonAuthoritative (cget (q_name q) (q_type q)) None))).
     { unfold cache_phase, cache_part. destruct (cget (q_name q) (q_type q)) as [|r l] eqn:E; [congruence|].
       cbn [is_nil andb]. rewrite merge_nil_l. cbn [is_nil]. apply N.eqb_neq in Hq. rewrite Hq. reflexivity. }
-    destruct (Hz (q_name q) (q_type q) Hn Hq) as (hz & zr & -> & -> & [[-> _]|(rrs & -> & Hin)]).
+    destruct (proj2 Hz (q_name q) (q_type q) Hn Hq) as (hz & zr & -> & -> & [[-> _]|(rrs & -> & Hin)]).
     - exact Hcp.
     - assert (rrs = []) as ->.
       { destruct rrs as [|x l]; [reflexivity|]. exfalso. apply (Hno x), Hin. left. reflexivity. }
@@ -619,6 +624,7 @@ Section HopsLog.
       destruct (qav_delivered_log u a q _ mc st1 _ Hd Hbud Hserve (msg_matches _ _ _ _ _ _ (or_introl eq_refl)) Hv) as (ts' & Eq & _ & Hlog).
       eexists. exists ts'. split; [|exact Hlog].
       rewrite (cstep_answer _ _ _ _ _ _ _ _ _ _ _ _ _ _ _ _ _ _ _ _ _ _ _ _ _ Ep Eh Eq).
+      2:{ intros r Hr. apply owned_elsewhere_qname. eapply Forall_forall in Hplain; [|exact Hr]. exact (proj1 (proj2 Hplain)). }
       rewrite merge_nil_l, Hsoa. reflexivity.
     - destruct Ho as (Hb & _).
       apply best_zone_spec in Hb. destruct Hb as [Hb|[_ Hsub]]; [discriminate|].
@@ -626,7 +632,7 @@ Section HopsLog.
       { apply validate_denial; [exact Hrc|exact Hsoat|rewrite Hsoan; exact Hsub|rewrite Hsoan; exact Hmc]. }
       destruct (qav_delivered_log u a q _ mc st1 _ Hd Hbud Hserve (msg_matches _ _ _ _ _ _ Hrc) Hv) as (ts' & Eq & _ & Hlog).
       eexists. exists ts'. split; [|exact Hlog].
-      rewrite (cstep_answer _ _ _ _ _ _ _ _ _ _ _ _ _ _ _ _ _ _ _ _ _ _ _ _ _ Ep Eh Eq).
+      rewrite (cstep_answer _ _ _ _ _ _ _ _ _ _ _ _ _ _ _ _ _ _ _ _ _ _ _ _ _ Ep Eh Eq) by (intros r []).
       rewrite merge_nil_l, Hnil, Hsoa. reflexivity.
   Qed.
 
@@ -685,7 +691,8 @@ Section HopsLog.
       - destruct (q_type q =? RT_AAAA); [|reflexivity]. rewrite (Hno RT_AAAA (or_intror eq_refl)). reflexivity. }
     split.
     - unfold candidate_step. rewrite Ep. unfold rbind at 1. rewrite Eh. unfold rbind at 1. rewrite Eq.
-      unfold resolve_with_nameserver_response, rbind, insert_all, ret. rewrite Hglue. cbn [fst snd ns_match_count ns_name ns_hostnames].
+      unfold resolve_with_nameserver_response, resolve_with_response_match, cut_at_local_authority, lift_res, rbind, insert_all, ret.
+      rewrite Hglue. cbn [fst snd ns_match_count ns_name ns_hostnames].
       rewrite Hrrs. reflexivity.
     - split; [|split; [exact Hbud'|exact Hlog]]. intro h. rewrite Hnames. split.
       + intros [r [H1 H2]]. apply Hns_in in H1. exists r. tauto.
@@ -709,7 +716,7 @@ Qed.
 Lemma hint_match_dec zs hints name qt : hints_zones zs hints -> wf_name name -> qt <> QT_Wildcard ->
   (exists x, hint_match hints name qt x) \/ (forall x, ~ hint_match hints name qt x).
 Proof.
-  intros Hz Hn Hq. destruct (Hz name qt Hn Hq) as (hz & zr & _ & _ & [[_ Hno]|(rrs & _ & Hin)]); [right; exact Hno|].
+  intros Hz Hn Hq. destruct (proj2 Hz name qt Hn Hq) as (hz & zr & _ & _ & [[_ Hno]|(rrs & _ & Hin)]); [right; exact Hno|].
   destruct rrs as [|x l].
   - right. intros x Hx. apply Hin in Hx. destruct Hx.
   - left. exists x. apply Hin. left. reflexivity.
